@@ -2,6 +2,7 @@
 pub mod c13;
 pub mod c17;
 pub mod common;
+pub mod sc;
 
 use crate::engine::Property;
 
@@ -9,6 +10,13 @@ pub fn by_id(id: &str) -> Option<&'static dyn Property> {
     match id {
         "C13" => Some(&c13::C13),
         "C17" => Some(&c17::C17),
+        "C01" => Some(&sc::C01),
+        "C02" => Some(&sc::C02),
+        "C03" => Some(&sc::C03),
+        "C06" => Some(&sc::C06),
+        "C07" => Some(&sc::C07),
+        "C08" => Some(&sc::C08),
+        "C09" => Some(&sc::C09),
         _ => None,
     }
 }
